@@ -34,10 +34,11 @@ func init() {
 			}
 			return []runner.Phase{
 				{Name: "close-at-wake", Variant: "race", Cases: n / 10, Run: closeAtWake, CaseTimeout: 60 * time.Second, Required: []string{"close_at_wake_cases", "close_reached_stop_while_parked"}},
+				{Name: "debouncer-stress", Variant: "race", Cases: n / 10, Run: c17debouncerStress, CaseTimeout: 60 * time.Second, Required: []string{"debouncer_refresh_requests", "debouncer_refreshes_run", "debouncer_single_requester_rounds"}},
 				{Name: "handshake-faults", Variant: "race", Cases: h, Run: c06handshake, CaseTimeout: 40 * time.Second, Required: []string{"handshake_faults"}},
 				{Name: "write-offsets", Variant: "plain", Cases: e, Run: c06offsets, CaseTimeout: 40 * time.Second, Required: []string{"cuts_injected"}},
 				{Name: "near-full", Variant: "plain", Cases: n / 20, Shards: 4, Run: c06nearfull, CaseTimeout: 120 * time.Second, Required: []string{"nearfull_build_failures"}},
-				{Name: "scenarios", Variant: "race", Cases: n, Run: c06case, CaseTimeout: 60 * time.Second, Required: []string{"closer_scenarios", "never_answered", "frame_build_failures", "no_streams_outcomes", "conservation_checks", "stream_starts", "timeout_limit_scenarios", "undecodable_late_answers"}},
+				{Name: "scenarios", Variant: "race", Cases: n, Run: c06case, CaseTimeout: 60 * time.Second, Required: []string{"closer_scenarios", "never_answered", "frame_build_failures", "no_streams_outcomes", "conservation_checks", "stream_starts", "timeout_limit_scenarios", "undecodable_late_answers", "answers_of_another_protocol_version"}},
 			}
 		},
 	})
@@ -60,6 +61,7 @@ func c06report(c *runner.Ctx, ec *echoCfg, res *echoResult) {
 	c.Add("frame_build_failures", int64(res.outcomes["marshal-error"]))
 	c.Add("never_answered", res.never)
 	c.Add("undecodable_late_answers", res.undecodable)
+	c.Add("answers_of_another_protocol_version", res.wrongVersion)
 	c.Add("stream_starts", res.streamObs.started)
 	c.Add("cuts_injected", int64(res.cutsInjected))
 	for _, m := range res.mismatches {
@@ -133,7 +135,13 @@ func c06cfg(c *runner.Ctx, i int) *echoCfg {
 		}
 		c.Add("timeout_limit_scenarios", 1)
 	}
-	if i%8 == 0 {
+	if i%16 == 8 {
+		// answers whose header names another protocol version: a protocol error for the caller, and the id comes back
+		ec.pWrongVersion = 5 + r.Intn(20)
+		ec.writeCutAt, ec.nodeCloseAfter, ec.closeSessionAfter, ec.stallAt = -1, -1, -1, 0
+		c.Add("wrong_version_answer_scenarios", 1)
+	}
+	if i%16 == 0 {
 		// late answers that cannot be decoded (compression flag without negotiated compression): their callers have
 		// gone, the connection lives on, the ids come back
 		ec.lateUndecodable = true
